@@ -87,11 +87,31 @@ func c06Sub(w *W) {
 		}
 		ctxs = append(ctxs, &c6Ctx{idx: i, c: c})
 	}
+	// topics are given alternately as a string and as a []byte in a scratch
+	// buffer of the caller, which the caller overwrites as soon as the call has
+	// returned (it is the caller's: a subscription must not depend on it)
+	optN := 0
 	setopt := func(c *c6Ctx, n string, v interface{}) error {
-		if c.c != nil {
-			return c.c.SetOption(n, v)
+		var scratch []byte
+		if t, ok := v.([]byte); ok && (n == mangos.OptionSubscribe || n == mangos.OptionUnsubscribe) {
+			optN++
+			if optN%2 == 0 {
+				v = string(t)
+			} else {
+				scratch = append(make([]byte, 0, len(t)+8), t...)
+				v = scratch
+			}
 		}
-		return s.SetOption(n, v)
+		var err error
+		if c.c != nil {
+			err = c.c.SetOption(n, v)
+		} else {
+			err = s.SetOption(n, v)
+		}
+		for i := range scratch {
+			scratch[i] = 'z'
+		}
+		return err
 	}
 	recv := func(c *c6Ctx) ([]byte, error) {
 		if c.c != nil {
